@@ -10,6 +10,9 @@ package main
 //	bloom check <*|m> <=|!=> <ci> <t> <o> M=<l> U=<l>   probe + real record matcher per value + real doCmiChecks /
 //	                                                DoCMICheckForUnrotated over real bloom filters of one block
 //	bloom mf <and|or> <ci> <phrase> <neg> <star> W=<l> O=<l> P=<b> PO=<b> M=<l> U=<l>   same for a hand-built MatchFilter
+//	bloom bool <=|!=> <0|1> <none|de> R=<item,…>    boolean comparison on column c: real ProcessSingleFilter → probe, real
+//	                                                block checks (column without micro-index, or with the real writeDeBloom
+//	                                                filter), real ApplySearchToExpressionFilterSimpleCsg per record
 //	dict <and|or> <ci> <phrase> W=<l> P=<b> R=<item,…>  real PackDictEnc/ReadDictEnc + ApplySearchToMatchFilterDictCsg
 //	                                                vs the per-record matcher
 //
@@ -242,6 +245,8 @@ func execBloom(line string) Result {
 		return execC03bCheck(f[2:], true)
 	case "mf":
 		return execC03bMf(f[2:])
+	case "bool":
+		return execC03bBoolCmp(f[2:])
 	}
 	return Result{Out: "bad-op"}
 }
@@ -659,6 +664,81 @@ func execC03bMf(a []string) Result {
 	return res
 }
 
+func execC03bBoolCmp(a []string) Result {
+	if len(a) != 4 || (a[0] != "=" && a[0] != "!=") || (a[2] != "none" && a[2] != "de") || !strings.HasPrefix(a[3], "R=") {
+		return Result{Out: "bad-op"}
+	}
+	lit, ok1 := c03bBool(a[1])
+	items, ok2 := c03bItems(a[3][2:])
+	if !ok1 || !ok2 {
+		return Result{Out: "bad-op"}
+	}
+	crit, err := ast.ProcessSingleFilter(writer.VerifColName, lit, nil, a[0], false, false, false, false, 0)
+	if err != nil || len(crit) == 0 {
+		return Result{Out: "err"}
+	}
+	sq := structs.GetSearchQueryFromFilterCriteria(crit[0], 0)
+	sq.GetQueryInfo()
+	keys, orig, wild, bop := sq.GetAllBlockBloomKeysToSearch()
+	cmis := map[string]*structs.CmiContainer{}
+	if a[2] == "de" {
+		var vals []writer.VerifVal
+		var tss []uint64
+		for i, it := range items {
+			switch it.kind {
+			case 's':
+				vals = append(vals, writer.VerifVal{Kind: 's', Str: append([]byte{}, it.str...)})
+			case 't':
+				vals = append(vals, writer.VerifVal{Kind: 'b', Bool: true})
+			case 'f':
+				vals = append(vals, writer.VerifVal{Kind: 'b', Bool: false})
+			case 'i':
+				vals = append(vals, writer.VerifVal{Kind: 'i', I: 0})
+			default:
+				vals = append(vals, writer.VerifVal{Kind: 'z'})
+			}
+			tss = append(tss, uint64(1700000000000+i))
+		}
+		bootEngineConfigOnly()
+		ss, err := writer.VerifFillColumn(filepath.Join(c03bTmp(), "seg"), vals, tss, "timestamp")
+		if err != nil {
+			return Result{Out: "err"}
+		}
+		bf, err := ss.VerifC03bDeBloom(writer.VerifColName)
+		if err != nil {
+			return Result{Out: "err"}
+		}
+		if bf != nil {
+			cmis[writer.VerifColName] = &structs.CmiContainer{CmiType: sutils.CMI_BLOOM_INDEX[0], Loaded: true, Bf: bf}
+		}
+	}
+	passR, passU, note := c03bPass(sq, cmis)
+	holder := &sutils.DtypeEnclosure{}
+	var res Result
+	bitsS := ""
+	for _, it := range items {
+		m, err := writer.ApplySearchToExpressionFilterSimpleCsg(sq.QueryInfo.QValDte, sq.ExpressionFilter.FilterOp, it.tlv(), false, holder, false)
+		if err != nil {
+			bitsS += "E"
+			if len(res.Fails) == 0 {
+				res.Fails = append(res.Fails, PropFail{Sig: "bool-filter-error/non-bool-record", Msg: fmt.Sprintf("boolean comparison %s %v on a record of kind %c returns the error %q: the dictionary word loop / the record loop of the block stops there and the answer depends on the order of the dictionary words", a[0], lit, it.kind, err)})
+			}
+			continue
+		}
+		bitsS += c03bBit(m)
+		if m && (!passR || !passU) && len(res.Fails) == 0 {
+			res.Fails = append(res.Fails, PropFail{Sig: "bloom-skip-unsound/bool-value", Msg: fmt.Sprintf("a boolean record satisfies %s %v, but the block is skipped by the bloom check (kept: rotated=%v open=%v; column micro-index: %s; %s)", a[0], lit, passR, passU, a[2], c03bProbeStr(keys, orig, wild, bop))})
+		}
+	}
+	if len(items) == 0 {
+		bitsS = "none"
+	}
+	res.Out = fmt.Sprintf("%s rec=%s pass=%s%s%s", c03bProbeStr(keys, orig, wild, bop), bitsS, c03bBit(passR), c03bBit(passU), note)
+	res.Tags = []string{"bool", "bool:" + a[2]}
+	res.Nontrivial = len(items) > 0
+	return res
+}
+
 func execC03bDict(a []string) Result {
 	if len(a) != 6 || (a[0] != "and" && a[0] != "or") || !strings.HasPrefix(a[5], "R=") {
 		return Result{Out: "bad-op"}
@@ -1023,6 +1103,8 @@ func genBloom(r *rand.Rand, n int, tier string) []string {
 		"bloom check * = 1 " + hex.EncodeToString([]byte(`foo`)) + " " + hex.EncodeToString([]byte(`Foo`)) + " M=" + hex.EncodeToString([]byte("x FOO bar y")) + " U=-",
 		"bloom check * != 1 " + hex.EncodeToString([]byte(`zzz`)) + " " + hex.EncodeToString([]byte(`zzz`)) + " M=" + hex.EncodeToString([]byte("ccc")) + ";" + hex.EncodeToString([]byte("ddd")) + " U=-",
 		"bloom addip " + hex.EncodeToString([]byte("Foo Bar")),
+		"bloom bool = 1 none R=t,f,z",
+		"bloom bool = 0 de R=t,f,z",
 	}
 	for len(out) < n {
 		switch k := r.Intn(100); {
@@ -1048,12 +1130,22 @@ func genBloom(r *rand.Rand, n int, tier string) []string {
 			out = append(out, c03bGenCheck(r, true))
 		case k < 82:
 			out = append(out, c03bGenMf(r))
-		case k < 97:
+		case k < 93:
 			out = append(out, c03bGenDict(r))
+		case k < 97:
+			var it []string
+			for i, n := 0, r.Intn(6); i < n; i++ {
+				it = append(it, []string{"t", "f", "t", "f", "z", "i", "s74727565"}[r.Intn(7)])
+			}
+			items := "-"
+			if len(it) > 0 {
+				items = strings.Join(it, ",")
+			}
+			out = append(out, fmt.Sprintf("bloom bool %s %d %s R=%s", []string{"=", "=", "!="}[r.Intn(3)], r.Intn(2), []string{"none", "de"}[r.Intn(2)], items))
 		default: // malformed
 			bad := []string{"bloom", "bloom add", "bloom add zz", "bloom add 0", "bloom check * = 1 66", "bloom check q = 1 66 66 M=- U=-",
 				"bloom check * == 1 66 66 M=- U=-", "bloom check * = 2 66 66 M=- U=-", "bloom check * = 1 66 66 M=;; U=-", "bloom col xx s61",
-				"bloom col raw q", "bloom mf and 1 0 0 1 W=61", "dict and 0 0 W=61 P=- X=s61", "dict xor 0 0 W=61 P=- R=s61", "bloom frob 1"}
+				"bloom col raw q", "bloom mf and 1 0 0 1 W=61", "dict and 0 0 W=61 P=- X=s61", "dict xor 0 0 W=61 P=- R=s61", "bloom frob 1", "bloom bool = 2 none R=t", "bloom bool = 1 xx R=t", "bloom bool = 1 none"}
 			out = append(out, bad[r.Intn(len(bad))])
 		}
 	}
